@@ -211,7 +211,6 @@ def check_C21(tier, seed):
     states = trans = 0
     graphs = {}
     for n in ([1, 2, 3] if thorough else [1, 2]):
-        edges = n <= (2 if thorough else 1) or n == 2
         mc = eb.model_check(n, mproto, False, "Fresh", edges=(n <= 2))
         states += mc["states"]
         trans += mc["transitions"]
@@ -231,7 +230,7 @@ def check_C21(tier, seed):
         total = len(picks)
         if n == 2 and not thorough:
             rng.shuffle(picks)
-            picks = picks[:700]
+            picks = picks[:6000]
         a, b = replay_graph(rep, m, n, picks, "r%d-" % n)
         log("replayed %d of %d user-level transitions of the %d-file graph (%d states compared)" % (a, total, n, b))
         nrep += a
@@ -351,11 +350,13 @@ def check_C22(tier, seed):
         rep.add(**{"graph_transitions_%dfile" % n: total, "graph_transitions_replayed_%dfile" % n: a})
         if n == 1:
             nrep += confirm_unsafe(rep, m, unsafe, n, sizes)
+    log("C22: graph replay done at %.0fs" % (vlib.time.time() - rep.t0))
     # 3. fault enumeration in the real code, validated by TraceBuild with CrashSafe in every state
     if not sizes:
         sizes.update(eb.run_histories(["f1"], [{"id": "s", "steps": [{"op": "reset", "src": {"f1": "A"}}]}])["__sizes__"])
     hs, noffs, nroffs = fault_histories(sizes, thorough)
     res = eb.run_histories(["f1"], hs)
+    log("C22: %d fault histories executed at %.0fs" % (len(hs), vlib.time.time() - rep.t0))
     for h in hs:  # give raw byte limits their region (for the classification of violations)
         for e in res[h["id"]]:
             if e["ev"] == "wfail" and e.get("region") == "given":
@@ -373,6 +374,7 @@ def check_C22(tier, seed):
     ntr = val["histories"]
     ex = next(h for h in hs if h["id"] == "c-stale-after_hash")
     rep.sample({"history": ex["steps"], "observed": [{"ev": e["ev"], "out": e["obs"]["out"]["f1"]} for e in res[ex["id"]] if e["ev"] != "end"]})
+    log("C22: fault histories validated at %.0fs" % (vlib.time.time() - rep.t0))
     # 4. random histories with faults, one and two files
     for n, count, lo, hi in ([(1, 150, 30, 200), (2, 150, 30, 200)] if thorough else [(1, 20, 30, 60), (2, 20, 30, 60)]):
         hs2 = random_histories(seed * 977 + n, n, count, lo, hi, True, "x%d-" % n)
